@@ -13,12 +13,13 @@ class C08(Prop):
     id = "C08"
     driver = "Env"
     quick_n = 250
-    thorough_n = 8000
+    thorough_n = 20000
     rule = ("bar-shaped episodes with a distinct action at every step (a constant action cannot reveal reordering), "
             "execution delays 0..4, box and discrete spaces, latency 0 .. min gap - 1 s with extra quotes exactly at, "
             "inside and just after the latency bound, all episode lengths up to the grid. Non-trivial = delay >= 1 "
             "with more steps than the delay, or a quote inside (t, t+latency] that changes the execution price, or a "
             "discrete space with delay, or a repeated episode on the same environment; distinct = distinct cases")
+    rule = rule + es.CONTEXT_RULE
     nontrivial_tags = {"delay-active", "latent-reprices", "discrete-delay", "repeated-episode"}
     assumptions = [
         "the box space contains the zero vector whenever delay > 0 (otherwise the implementation's own null action is "
